@@ -34,6 +34,18 @@ Theorem C17_uniform_stationary :
 Proof. exact uniform_stationary. Qed.
 Print Assumptions C17_uniform_stationary.
 
+(* every step of a run with an arbitrary sequence of time steps: never refused, psi stays 1, no potential, no current.
+   Hypotheses: the linear solver returns 0 for a zero right-hand side; exp(0) = 1. *)
+Theorem C17_stationary_forever :
+  forall (a : nat -> R) (n : nat) (es : list edgeR) (solve : (nat -> R) -> nat -> R) (expi : R -> RC),
+    (forall f, (forall r, f r = 0) -> forall r, solve f r = 0) ->
+    expi 0 = (1, 0) ->
+  forall gamma u : R, u <> 0 -> forall (dts : list R) (psi : nat -> RC) (mu : nat -> R),
+    (forall r, psi r = (1, 0)) -> (forall r, mu r = 0) ->
+    Forall entry_stationary (run_steps OpsR a n es [] solve None expi gamma u psi mu (map (stat_in es) dts)).
+Proof. exact stationary_forever. Qed.
+Print Assumptions C17_stationary_forever.
+
 (* in a stationary state the adaptive step is dt_init up to step window+1 and the configured maximum ever after *)
 Theorem C17_dt_grows_to_max :
   forall (o : optsR), 0 < dt_init _ o -> dt_init _ o <= dt_max _ o ->
